@@ -193,7 +193,7 @@ func c19Program(kind svc.Kind, point string, v *c19Value) (*svc.Program, []*gen.
 }
 
 func c19(run *ev.Run) int {
-	run.SetRule("cases = panic values {nil, error, *connect.Error, wrapped *connect.Error, string, int, struct, pointer, error wrapping the abort sentinel, error whose Is matches it, the sentinel itself} x 4 kinds x 3 protocols x panic point {before first receive, between sends, after last send} x client context {no deadline, far deadline} x 12 placements of WithRecover among other interceptors/option groups x {in-memory loopback; real HTTP/1.1 and HTTP/2 servers (quick: one placement, thorough: all 12)}; what the recovery function returns {coded error with details and metadata, plain error, wrapped coded error, each of the 16 codes} compared with the same error returned by a non-panicking handler; concurrent phase: G goroutines x K calls on shared handlers (real HTTP/2 + HTTP/1.1), every panic value unique, one in three calls not panicking, oracle = multiset of recovered values equals multiset of panics and every client sees the error built from its own value; sentinel cases run ServeHTTP directly under recover(); plus non-panicking calls with and without WithRecover (differential); exhaustive in this bound; distinct by (value, kind, protocol, point, placement, transport)")
+	run.SetRule("cases = panic values {nil, error, *connect.Error, wrapped *connect.Error, string, int, struct, pointer, error wrapping the abort sentinel, error whose Is matches it, the sentinel itself} x 4 kinds x 3 protocols x panic point {before first receive, between sends, after last send} x client context {no deadline, far deadline} x 12 placements of WithRecover among other interceptors/option groups x {in-memory loopback; real HTTP/1.1 and HTTP/2 servers (quick: one placement, thorough: all 12)}; what the recovery function returns {coded error with details and metadata, plain error, wrapped coded error, each of the 16 codes} compared with the same error returned by a non-panicking handler; gateway-style unary handlers that forward the request object they received to another client before panicking; concurrent phase: G goroutines x K calls on shared handlers (real HTTP/2 + HTTP/1.1), every panic value unique, one in three calls not panicking, oracle = multiset of recovered values equals multiset of panics and every client sees the error built from its own value; sentinel cases run ServeHTTP directly under recover(); plus non-panicking calls with and without WithRecover (differential); exhaustive in this bound; distinct by (value, kind, protocol, point, placement, transport)")
 	values := c19Values()
 	layouts := c19Layouts()
 	points := []string{"start", "mid", "end"}
@@ -276,8 +276,9 @@ func c19(run *ev.Run) int {
 	})
 	c19Real(run, values)
 	c19Returns(run)
+	c19Forwarding(run, values)
 	c19Concurrent(run)
-	return run.Finish("panics.recovered", "sentinel.reraised", "non_panicking.compared", "real.calls", "returns.compared", "concurrent.panics")
+	return run.Finish("panics.recovered", "sentinel.reraised", "non_panicking.compared", "real.calls", "returns.compared", "concurrent.panics", "forwarding.panics")
 }
 
 func sameValue(a, b any) bool {
@@ -659,4 +660,47 @@ func c19Ctx(key string) (context.Context, context.CancelFunc) {
 		return context.WithTimeout(context.Background(), 10*time.Minute)
 	}
 	return context.Background(), func() {}
+}
+
+// c19Forwarding: a gateway-style unary handler passes the request object it
+// received on to another connect client (which is allowed to, and does, stamp
+// it as a client request) and panics afterwards. The panic is still the
+// handler's, and is recovered like any other.
+func c19Forwarding(run *ev.Run, values []c19Value) {
+	// the upstream the gateway calls
+	upReg := svc.NewRegistry()
+	up := &wire.Loopback{Handler: svc.Mux(svc.Handlers(upReg))}
+	for _, protocol := range svc.Protocols {
+		for _, upProto := range svc.Protocols {
+			for vi := range values {
+				v := values[vi]
+				if v.name == "sentinel" {
+					continue
+				}
+				key := fmt.Sprintf("c19/forwarding/%s/upstream=%s/%s", protocol, upProto, v.name)
+				if !run.Want(key) {
+					continue
+				}
+				rec := &c19Recorder{}
+				reg := svc.NewRegistry()
+				upClient := connect.NewClient[svc.Msg, svc.Msg](up, "http://upstream.local"+svc.Unary.Path(), svc.ProtoOpts(upProto, "proto")...)
+				cs := svc.NewClientSet(&wire.Loopback{Handler: svc.Mux(svc.Handlers(reg, connect.WithInterceptors(noopIcept{}), connect.WithRecover(rec.handle)))}, "http://verif.local", svc.ProtoOpts(protocol, "proto")...)
+				prog := &svc.Program{Steps: []svc.Step{{Op: "recv"}, {Op: "panic", Val: v.val}}}
+				prog.OnUnaryRequest = func(ctx context.Context, req *connect.Request[svc.Msg]) {
+					_, _ = upClient.CallUnary(ctx, req)
+				}
+				call := reg.New("c19f", prog)
+				var cl *svc.CLog
+				ok, dump := watchdog(30*time.Second, func() { cl = cs.Do(context.Background(), svc.Unary, call.ID, nil, []*gen.Msg{{Id: 1}}) })
+				reg.Drop(call)
+				run.Eval(fmt.Sprintf("forwarding|%s|%s|%s", protocol, upProto, v.name))
+				run.Count("forwarding.panics", 1)
+				if !ok {
+					run.Violation(key+"/hang", "call did not return", trunc(dump, 20000))
+					continue
+				}
+				c19Judge(run, key, rec.take(), v, cl, nil, map[string]any{"protocol": protocol, "upstream_protocol": upProto, "value": v.name, "handler": "forwards its request to another client, then panics"})
+			}
+		}
+	}
 }
